@@ -2,12 +2,21 @@
 // (impl -> spec) and replays TLC-generated behaviours against it (spec -> impl).
 mod util;
 mod board;
+mod values;
+mod cand;
 
 fn main() {
     let argv: Vec<String> = std::env::args().collect();
     let args = util::Args(argv.clone());
     match argv.get(1).map(|s| s.as_str()) {
         Some("board") => board::run(&args),
+        Some("bb") => values::run_bb(&args),
+        Some("pm") => values::run_pm(&args),
+        Some("coord") => values::run_coord(&args),
+        Some("geom") => values::run_geom(&args),
+        Some("cand") => cand::run_cand(&args),
+        Some("starts") => cand::run_starts(&args),
+        Some("parse") => cand::run_parse(&args),
         _ => {
             eprintln!("usage: vharness <board|...> [--key value]...");
             std::process::exit(2);
